@@ -41,6 +41,24 @@ def captured_arrays(op):
     return out
 
 
+def captured_tree(op, seen=None, depth=0):
+    """Every ndarray reachable from an operator object: its own attributes and, recursively,
+    those of the operators it is composed of (each array once)."""
+    import sigpy.linop as L
+    seen = {} if seen is None else seen
+    if depth > 8 or not hasattr(op, "__dict__"):
+        return seen
+    for k, v in vars(op).items():
+        if isinstance(v, np.ndarray):
+            seen.setdefault(id(v), (type(op).__name__ + "." + k, v))
+        elif isinstance(v, L.Linop) and k not in ("H", "N", "adjoint", "normal"):
+            captured_tree(v, seen, depth + 1)
+        elif isinstance(v, (list, tuple)) and v and all(isinstance(t, L.Linop) for t in v):
+            for t in v:
+                captured_tree(t, seen, depth + 1)
+    return seen
+
+
 def install():
     import sigpy.linop as L
 
@@ -60,6 +78,22 @@ def install():
         STATE.depth += 1
         try:
             output = orig(self, input)
+        except BaseException:
+            # a rejected / failed application must not leave the caller's array or the
+            # arrays the operator was built from modified either
+            if is_arr:
+                cnt["Linop.apply:raised"] += 1
+                name = type(self).__name__
+                if digest(input) != hin:
+                    STATE.event("C02", "input-mutated",
+                                "%s.apply raised and left its input array modified (%r)" % (
+                                    name, self))
+                for k, v, h in caps:
+                    if digest(v) != h:
+                        STATE.event("C02", "param-mutated",
+                                    "%s.apply raised and left captured array %r modified "
+                                    "(%r)" % (name, k, self))
+            raise
         finally:
             STATE.depth -= 1
         if isinstance(output, np.ndarray) and output.size <= (1 << 20):
